@@ -6,6 +6,8 @@ package main
 import (
 	"context"
 	"errors"
+	"os"
+	"strconv"
 	"strings"
 	"time"
 
@@ -22,24 +24,29 @@ const rule = "streams: (1) known-finding witnesses and corpus (npm/testdata univ
 	"unparsable ones, scoped and mixed-case names; cycles and version conflicts arise from uniform target choice), alias-free and " +
 	"with KnownAs aliases (alias names colliding with package names included), and with bundled (derived) packages; every version of every " +
 	"universe is resolved as root. A case is distinct by its op line; non-trivial = resolution returned a graph with at least one edge, " +
-	"counted by distinct result line. Universes satisfy U1-U3. A universe on which Go finishes but needs more queue pops than the " +
-	"driver's fuel is not emitted (counted as dropped.too-large)."
+	"counted by distinct result line. Universes satisfy U1-U3. The op line carries the model's fuel (queue pops): 2+|edges| of Go's " +
+	"own graph when Go finishes (a run pops at most 1+|edges| times), 80 when Go hits its 1 s deadline."
 
 // deadline of one resolution; a hit is the result `timeout`.
-const deadline = 2 * time.Second
+const deadline = 1 * time.Second
 
-// maxEdges bounds the graphs that are emitted: the model runs with
-// driverFuel = 600 pops and a run pops at most 1 + |edges| times.
-const maxEdges = 590
+// Fuel. The Lean model of the main loop is fuel-bounded (one unit per queue pop)
+// and the op line carries the fuel: a run pops at most 1 + |edges| times (every
+// push is caused by an edge), so for a resolution on which Go finishes the
+// harness gives 2 + |edges|; for one that hits the deadline it gives hangFuel,
+// and the model must not finish within that many pops (it answers `timeout`).
+// The cost of the path-keyed model grows like pops^4 on the ever-deeper trees of
+// the non-terminating cases, hence the small number.
+const hangFuel = 80
 
 var memoLine, memoRes string
 
 // exec runs the real resolver on one op.
 func exec(f []string) string {
-	if len(f) != 4 || f[0] != "resolve" || !strings.HasPrefix(f[3], "root=") {
+	if len(f) != 5 || f[0] != "resolve" || !strings.HasPrefix(f[3], "root=") || !strings.HasPrefix(f[4], "fuel=") {
 		return "bad-op"
 	}
-	key := strings.Join(f, " ")
+	key := strings.Join(f[:4], " ")
 	if key == memoLine {
 		return memoRes
 	}
@@ -82,11 +89,29 @@ func resolveOn(t *universe.Table, u *universe.NpmUniverse, rn, rv string) string
 	return render(t, g, tree)
 }
 
+// opLine builds the op line; the fuel is chosen from Go's own result (see hangFuel).
 func opLine(table, body string, t *universe.Table, name, ver string) string {
-	return "C06 resolve " + table + " " + body + " root=" + t.Ix(name) + "@" + t.Ix(ver)
+	base := "C06 resolve " + table + " " + body + " root=" + t.Ix(name) + "@" + t.Ix(ver)
+	res := exec(append(strings.Fields(base)[1:], "fuel=0"))
+	fuel := hangFuel
+	if strings.HasPrefix(res, "ok ") {
+		fuel = 2 + edgeCount(res)
+	}
+	return base + " fuel=" + strconv.Itoa(fuel)
+}
+
+func edgeCount(res string) int {
+	f := strings.Fields(res)
+	if len(f) < 3 || f[2] == "E=-" {
+		return 0
+	}
+	return strings.Count(f[2], ",") + 1
 }
 
 func main() {
+	if len(os.Args) > 1 && tool(os.Args[1:]) {
+		return
+	}
 	fw.Main(&fw.Prop{
 		ID:       "C06",
 		Rule:     rule,
